@@ -32,6 +32,8 @@ type Ctx struct {
 	Mod     []*packages.Package          // module packages, sorted by path
 	Prog    *ssa.Program
 	NumPkgs int
+	Config  string   // build configuration analysed, e.g. "linux/amd64"
+	Ignored []string // product files excluded from that configuration by build constraints
 	loadS   float64
 	ssaS    float64
 }
@@ -70,6 +72,11 @@ func Load(extraEnv []string, tags string) *Ctx {
 	}
 	env = append(env, "GOFLAGS=-mod=readonly", "GOWORK=off", "GOPROXY=off", "GOSUMDB=off", "GOTOOLCHAIN=local")
 	env = append(env, extraEnv...)
+	c.Config = "linux/amd64"
+	if goos, goarch := os.Getenv("ZLV_GOOS"), os.Getenv("ZLV_GOARCH"); goos != "" && goarch != "" {
+		env = append(env, "GOOS="+goos, "GOARCH="+goarch, "CGO_ENABLED=0")
+		c.Config = goos + "/" + goarch
+	}
 	cfg := &packages.Config{
 		Mode:  packages.LoadAllSyntax,
 		Dir:   c.V3Dir,
@@ -108,6 +115,15 @@ func Load(extraEnv []string, tags string) *Ctx {
 		}
 	}
 	sort.Slice(c.Mod, func(i, j int) bool { return c.Mod[i].PkgPath < c.Mod[j].PkgPath })
+	for _, p := range c.Mod {
+		for _, f := range p.IgnoredFiles {
+			if strings.HasSuffix(f, ".go") && !strings.HasSuffix(f, "_test.go") {
+				rel, _ := filepath.Rel(c.RepoDir, f)
+				c.Ignored = append(c.Ignored, rel)
+			}
+		}
+	}
+	sort.Strings(c.Ignored)
 	c.NumPkgs = len(c.All)
 	if len(c.Mod) < 10 {
 		fault("only %d module packages loaded (expected zlint, lint, util, 9 lint packages, ...)", len(c.Mod))
@@ -542,7 +558,9 @@ func (r *Report) Finish() {
 		"packages":            c.NumPkgs,
 		"module_packages":     len(c.Mod),
 		"instance_floors":     r.Floors,
-		"checker_cmd":         fmt.Sprintf("/verif/bin/zlv -prop %s -tier %s (ZLV_REPO=%s)", r.Prop, r.Tier, c.RepoDir),
+		"checker_cmd":         fmt.Sprintf("/verif/bin/zlv -prop %s -tier %s (ZLV_REPO=%s, build configuration %s)", r.Prop, r.Tier, c.RepoDir, c.Config),
+		"build_config":        c.Config,
+		"files_outside_build": c.Ignored,
 		"trusted_base":        r.Trusted,
 		"exhaustive":          r.Exhaustive,
 		"load_s":              c.loadS,
@@ -560,7 +578,11 @@ func (r *Report) Finish() {
 	if r.Assumptions == nil {
 		r.Assumptions = []string{}
 	}
-	r.Assumptions = append(r.Assumptions, "analysed: default build (linux/amd64, no tags) of package zlint, lint, util, lints/*, cmd/zlint, cmd/zlint-gtld-update, formattedoutput, profiles; test files are not part of the product")
+	if len(c.Ignored) > 0 {
+		fmt.Printf("note: %d product file(s) are excluded from the analysed build configuration %s by build constraints and were not analysed: %s (the thorough tier analyses windows/amd64, darwin/arm64 and linux/386 as well)\n", len(c.Ignored), c.Config, trimStr(strings.Join(c.Ignored, ", "), 300))
+		r.Assumptions = append(r.Assumptions, fmt.Sprintf("%d product files carry build constraints that exclude them from %s: %s", len(c.Ignored), c.Config, strings.Join(c.Ignored, ", ")))
+	}
+	r.Assumptions = append(r.Assumptions, "analysed: build "+c.Config+" (no tags) of package zlint, lint, util, lints/*, cmd/zlint, cmd/zlint-gtld-update, formattedoutput, profiles; test files are not part of the product")
 	if r.Trusted == nil {
 		r.Trusted = []string{}
 	}
